@@ -130,11 +130,16 @@ class KindInfer:
                 and isinstance(test.comparators[0], ast.Constant) and test.comparators[0].value is None \
                 and isinstance(test.left, ast.Name) and test.left.id in env:
             v = env[test.left.id]
-            if v == NONEV or (isinstance(v, tuple) and v and v[0] == "tuple"):
+            if v == NONEV or (isinstance(v, tuple) and v and v[0] in ("tuple", "bool")) or \
+                    (isinstance(v, frozenset) and v and v <= frozenset(KINDS)):
                 holds = (v == NONEV) == isinstance(test.ops[0], (ast.Is, ast.Eq))
                 return ([env], []) if holds else ([], [env])
         if isinstance(test, ast.Name) and test.id in env:
             probe = env[test.id]
+            if isinstance(probe, tuple) and probe and probe[0] == "bool":
+                return ([env], []) if probe[1] else ([], [env])
+        if isinstance(test, ast.Constant) and isinstance(test.value, bool):
+            return ([env], []) if test.value else ([], [env])
         if probe is not None and (probe == NONEV or (isinstance(probe, tuple) and probe and probe[0] == "tuple")):
             truthy = probe != NONEV and len(probe[1]) > 0
             return ([env], []) if truthy else ([], [env])
@@ -256,6 +261,8 @@ class KindInfer:
         inf = self.ctx.typer.of(fn)
         if isinstance(e, ast.Constant) and e.value is None:
             return NONEV
+        if isinstance(e, ast.Constant) and isinstance(e.value, bool):
+            return ("bool", e.value)
         if isinstance(e, ast.Name):
             if e.id in env:
                 return env[e.id]
